@@ -7,7 +7,7 @@
 (* prints stimulus + specified observation for the replay into the code    *)
 (* generated from /repo.                                                   *)
 (***************************************************************************)
-EXTENDS TLValues
+EXTENDS TL2Format
 
 CONSTANTS K,        \* value modifications per path
           KMut      \* byte mutations are applied to values at depth < KMut
@@ -48,7 +48,9 @@ Payload ==
   THEN [kind |-> "val", tn |-> st.tn, k |-> st.k,
         tl1ok |-> Enc1(st.tn, NoEnv, st.v, TRUE).ok,
         tl1 |-> Bytes(Enc1(st.tn, NoEnv, st.v, TRUE)),
-        tl1b |-> Bytes(Enc1(st.tn, NoEnv, st.v, FALSE))]
+        tl1b |-> Bytes(Enc1(st.tn, NoEnv, st.v, FALSE)),
+        hastl2 |-> TY(st.tn).tl2,
+        tl2 |-> IF TY(st.tn).tl2 THEN Enc2(st.tn, st.v, FALSE) ELSE <<>>]
   ELSE [kind |-> "bytes", tn |-> st.tn, boxed |-> st.boxed, b |-> st.b, dec |-> DecOut(st.tn, st.b, st.boxed)]
 Emit == PrintT(ToJson(<<"@@", Payload>>))
 
@@ -59,6 +61,11 @@ RoundTrip1 ==
       LET e == Enc1(st.tn, NoEnv, st.v, bare) IN
       /\ e.ok
       /\ LET d == Dec1(st.tn, NoEnv, e.b, 1, bare) IN d.ok /\ d.v = st.v /\ d.pos = Len(e.b) + 1
+RoundTrip2 ==
+  st.kind = "val" /\ TY(st.tn).tl2 =>
+    LET e == Enc2(st.tn, st.v, FALSE)
+        d == Dec2(st.tn, e, 1, Len(e))
+    IN d.ok /\ d.v = st.v /\ d.pos = Len(e) + 1
 ValuesValid == st.kind = "val" => Valid1(st.tn, NoEnv, st.v)
 (* whatever is accepted re-encodes, and the re-encoding decodes to the same value *)
 Canonical1 ==
